@@ -85,3 +85,32 @@ Section WithMsg.
   Definition c_u32 c := c_be c 4.
   Definition c_u128 c := c_be c 16.
 End WithMsg.
+
+(* Composite readers thread the cursor explicitly so that the position after a *failed* composite
+   read is modelled too (primitives leave the cursor unchanged on error; earlier primitives of
+   the same composite have already advanced it). *)
+Definition M (X : Type) := cursor -> cursor * res X.
+Definition mret {X} (x : X) : M X := fun c => (c, Ok x).
+Definition mfail {X} (r : res X) : M X := fun c => (c, r).
+Definition mbind {X Y} (m : M X) (f : X -> M Y) : M Y :=
+  fun c => let (c', r) := m c in
+           match r with
+           | Ok x => f x c'
+           | Err e => (c', Err e) | UB => (c', UB) | Panic => (c', Panic)
+           | DebugAssert => (c', DebugAssert) | OutOfFuel => (c', OutOfFuel)
+           end.
+Notation "'do*' x '<-' e ';' f" := (mbind e (fun x => f))
+  (at level 200, x pattern, e at level 100, f at level 200, right associativity).
+(* a primitive: on success the new cursor, on failure the cursor is untouched *)
+Definition lift {X} (f : cursor -> res (X * cursor)) : M X :=
+  fun c => match f c with
+           | Ok (x, c') => (c', Ok x)
+           | Err e => (c, Err e) | UB => (c, UB) | Panic => (c, Panic)
+           | DebugAssert => (c, DebugAssert) | OutOfFuel => (c, OutOfFuel)
+           end.
+Definition lift_c (f : cursor -> res cursor) : M unit :=
+  lift (fun c => let* c' := f c in Ok (tt, c')).
+
+(* clone_with_pos: the whole buffer (the saved one if a window is open), fresh window state *)
+Definition c_clone_with_pos (c : cursor) (p : N) : cursor :=
+  mkCursor (match orig c with Some L => L | None => lim c end) p None.
